@@ -82,6 +82,15 @@ def check_grad(case, ctx):
     if c["kind"] == "isoelastic":
         # isoelastic utility needs a positive P&L: the derivative pays 5 less (a user clause)
         deriv.add_clause("shift", lambda d, payoff: payoff - 5.0)
+    priced = False
+    if hedge is not None and len(hedge) >= 2 and case["dir_seed"] % 2 == 0:
+        # the quoted price of the listed hedging instrument depends on a parameter of the model (a jointly calibrated
+        # pricer): the loss then depends on that parameter through the prices (gains AND transaction costs) as well
+        q = torch.nn.Parameter(torch.tensor(0.1, dtype=objs["dtype"]))
+        objs["model"].register_parameter("quote_scale", q)
+        listed = hedge[1]
+        listed.list(lambda d: ((d.ul().spot - d.strike).tanh() + 0.1 * d.time_to_maturity()) * (1 + q) + q.square(), cost=max(listed.cost, 1e-3))
+        priced = True
     with ctx.sut("C14/simulate"):
         simulate(case, objs)
     params = [p for p in hedger.parameters() if p.requires_grad]
@@ -98,6 +107,11 @@ def check_grad(case, ctx):
     if not torch.isfinite(sample).all():
         ctx.cls("skipped:non-finite-sample")  # e.g. a forward-start ratio on a rate that touched zero
         return
+    with torch.no_grad():
+        bound = hedger.inputs.of(deriv, hedger)
+        if any(not torch.isfinite(f.get(None)).all() for f in bound.features if not f.is_state_dependent()):
+            ctx.cls("skipped:non-finite-model-input")  # e.g. the log of a CIR rate that touched zero: the user's model sees -inf
+            return
     with ctx.sut("C14/loss"):
         L = loss_fn()
     if not torch.isfinite(L):
@@ -189,7 +203,7 @@ def check_grad(case, ctx):
             break
     state_dep = "prev_hedge" in case["inputs"]
     ctx.nontrivial(used > 0 and gnorm > 1e-8 and (not state_dep or case["model"] == "recurrent"))
-    ctx.cls("mode:" + case.get("mode", "train"), "crit:" + c["kind"], "model:" + case["model"], "branch:" + ("stepwise" if state_dep else "vectorised"),
+    ctx.cls("parameter-in-listed-price:" + str(priced), "mode:" + case.get("mode", "train"), "crit:" + c["kind"], "model:" + case["model"], "branch:" + ("stepwise" if state_dep else "vectorised"),
             "H:%d" % case["n_hedges"], "cost:" + str(case["ul"]["cost"] > 0))
     if used == 0:
         ctx.cls("all-directions-discarded")
@@ -250,9 +264,9 @@ SUBS = [
              "3..8 steps, hedge default/[ul]/[ul, listed option], criterion in {entropic RM, entropic loss, isoelastic (shifted "
              "P&L), ES, QCVaR, OCE(w), MSE, L1}. Non-trivial: gradient norm > 1e-8, at least one direction kept, and in the "
              "stepwise branch a model that really feeds prev_hedge forward.",
-        strategy=lambda tier: grad_case(), examples={"quick": 640, "thorough": 6400}),
+        strategy=lambda tier: grad_case(), examples={"quick": 1280, "thorough": 12800}),
     Sub("evaluation_only", check_nograd,
         rule="scenario x n_times in {1,2}: price() and compute_loss(enable_grad=False) have no grad_fn, the enable_grad variants do. "
              "Non-trivial: the hedger has trainable parameters.",
-        strategy=lambda tier: nograd_case(), examples={"quick": 300, "thorough": 3000}),
+        strategy=lambda tier: nograd_case(), examples={"quick": 640, "thorough": 6400}),
 ]
